@@ -381,16 +381,21 @@ impl SessionManager {
                 json!(vec!["unsupported DeviceRequest version".to_string()]),
             );
         }
-        if let Some(doc_request) = request.doc_requests.first() {
+        // Reader authentication is only valid if it is valid for every document request.
+        for (index, doc_request) in request.doc_requests.iter().enumerate() {
             let outcome = self.reader_authentication(doc_request.clone());
             if outcome.errors.is_empty() {
-                validated_request.reader_authentication = AuthenticationStatus::Valid;
+                if index == 0 {
+                    validated_request.reader_authentication = AuthenticationStatus::Valid;
+                }
             } else {
                 validated_request.reader_authentication = AuthenticationStatus::Invalid;
                 tracing::error!("Reader authentication errors: {:#?}", outcome.errors);
             }
 
-            validated_request.common_name = outcome.common_name;
+            if index == 0 {
+                validated_request.common_name = outcome.common_name;
+            }
         }
 
         validated_request
